@@ -135,6 +135,57 @@ impl RefValue {
 		}
 	}
 
+	/// Builds the value through construction route `route`:
+	/// 0 `Object::from_vec`, 1 `push`, 2 parsing the compact text, 3 clone of a pushed value,
+	/// 4 `From` conversions + `FromIterator<(Key, Value)>`, 5 `Extend<Entry>` in two halves + `push_front` for the first entry.
+	pub fn to_value_route(&self, route: u8) -> Value {
+		use json_syntax::Parse;
+		match route % 6 {
+			0 => self.to_value(),
+			1 => self.to_value_push(),
+			2 => {
+				let text = crate::refprint::compact(self);
+				Value::parse_str(&text).map(|x| x.0).unwrap_or_else(|_| self.to_value())
+			}
+			3 => self.to_value_push().clone(),
+			4 => match self {
+				RefValue::Null => Value::Null,
+				RefValue::Bool(b) => Value::from(*b),
+				RefValue::Num(n) => match n.parse::<u64>() {
+					Ok(u) if u.to_string() == *n => Value::from(u),
+					_ => match n.parse::<i64>() {
+						Ok(i) if i.to_string() == *n => Value::from(i),
+						_ => self.to_value(),
+					},
+				},
+				RefValue::Str(s) => {
+					if s.len() % 2 == 0 {
+						Value::from(s.as_str())
+					} else {
+						Value::from(s.clone())
+					}
+				}
+				RefValue::Arr(a) => Value::from(a.iter().map(|v| v.to_value_route(4)).collect::<Vec<Value>>()),
+				RefValue::Obj(o) => Value::from(o.iter().map(|(k, v)| (json_syntax::object::Key::from(k.as_str()), v.to_value_route(4))).collect::<Object>()),
+			},
+			_ => match self {
+				RefValue::Arr(a) => Value::Array(a.iter().map(|v| v.to_value_route(5)).collect()),
+				RefValue::Obj(o) => {
+					let mut obj = Object::new();
+					let es: Vec<Entry> = o.iter().map(|(k, v)| Entry::new(k.as_str().into(), v.to_value_route(5))).collect();
+					if let Some((first, rest)) = es.split_first() {
+						let half = rest.len() / 2;
+						obj.extend(rest[..half].iter().cloned());
+						obj.extend(rest[half..].iter().cloned());
+						obj.push_entry_front(first.clone());
+					}
+					Value::Object(obj)
+				}
+				other => other.to_value(),
+			},
+		}
+	}
+
 	/// Reads a json-syntax value back through its public accessors.
 	pub fn from_value(v: &Value) -> RefValue {
 		match v {
